@@ -1,6 +1,7 @@
 import GridVerif.Model.Proto
 import GridVerif.Model.Elem
 import GridVerif.Model.Harmonics
+import GridVerif.Model.SphereQuad
 
 namespace GridVerif.Driver.C02
 open GridVerif.Proto GridVerif.Harmonics
@@ -27,7 +28,11 @@ def pFloatArray : List String → Option (FloatArray × List String)
   `value-error` when the number of coordinates is not three times the number of weights.
 * `C02.screen degree k m₁ … m_k 3n … n …` ↦ the same report restricted to the orders `|m| ∈ {0, m₁, …, m_k}`
   (`AngularCheck.fileSel`).
-* `C02.moments degree 3n … n …` ↦ `ok (degree+1)² moments…` in the row order of the harmonics. -/
+* `C02.moments degree 3n … n …` ↦ `ok (degree+1)² moments…` in the row order of the harmonics.
+* `C02.table kind kp kw L T a 4n W₁ X₁ Y₁ Z₁ …` (`kind` = `unit` | `4pi`; the integers of a generated table
+  `Gen/AngularData/*.lean`) ↦ `ok s d o k m₁ … m_k`: `s` = the sliced integer test of slice `a` (`sliceOkUnit` /
+  `sliceOk4pi`), `d` = the direct test on the same monomials (`okUnit` / `ok4pi` over `sliceMonos`), `o` = `onSphere`
+  (each `1`/`0`), and the integer moments `sliceMoments t a (L+1-a)` in the order of `sliceMonos`. -/
 def handle : List String → Option String
   | "C02.file" :: d :: rest => do
     let d ← pNat d
@@ -53,6 +58,29 @@ def handle : List String → Option String
     if rest ≠ [] then none else
     if pts.size ≠ 3 * w.size then pure "value-error" else
     pure ("ok " ++ sFloats (AngularCheck.momentRows pts w d))
+  | "C02.table" :: kind :: kp :: kw :: L :: T :: a :: rest => do
+    let kp ← pNat kp
+    let kw ← pNat kw
+    let L ← pNat L
+    let T ← pNat T
+    let a ← pNat a
+    let (xs, rest) ← pVec pInt rest
+    if rest ≠ [] then none else
+    if xs.length % 4 ≠ 0 then pure "value-error" else
+    let rec rows : List Int → List (Int × Int × Int × Int)
+      | w :: x :: y :: z :: r => (w, x, y, z) :: rows r
+      | _ => []
+    let t : SphereQuad.Table := ⟨kp, kw, rows xs⟩
+    let b (v : Bool) : Nat := if v then 1 else 0
+    let n := L + 1 - a
+    match kind with
+    | "unit" =>
+      let direct := (SphereQuad.sliceMonos n).all fun q => SphereQuad.okUnit t T a q.1 q.2
+      pure s!"ok {b (SphereQuad.sliceOkUnit t L T a)} {b direct} {b (SphereQuad.onSphere t T)} {sInts (SphereQuad.sliceMoments t a n)}"
+    | "4pi" =>
+      let direct := (SphereQuad.sliceMonos n).all fun q => SphereQuad.ok4pi t T a q.1 q.2
+      pure s!"ok {b (SphereQuad.sliceOk4pi t L T a)} {b direct} {b (SphereQuad.onSphere t T)} {sInts (SphereQuad.sliceMoments t a n)}"
+    | _ => none
   | _ => none
 
 end GridVerif.Driver.C02
